@@ -657,6 +657,7 @@ def c19(chk):
 def c18(chk):
     chk.extract(("features", "messageTypes"))
     chk.proofs(["Midi.Props.C18"])
+    chk.translated(['TCC', 'TPN', 'TPoll', 'TMsg', 'TShort', 'TStruct', 'TUtil'])   # panic sites of the translated code = the model's
     # allocation half: counting allocator, low optimisation so that allocations are not elided
     exe0 = chk.cargo_build("std", profile="noopt")
     if exe0 is not None:
